@@ -347,6 +347,23 @@ func c05Entity(c *runCtx) {
 		}
 		s.newBug(s.reps[0])
 		s.push(s.reps[0])
+		if i%2 == 1 {
+			// directed: both edit the first bug concurrently, then B is busy with other bugs (its clock
+			// moves on) before it pulls: the merge commit it writes takes its time from B's clock, above
+			// everything B has handed out, not from the two heads
+			a, b := s.reps[0], s.reps[1]
+			s.pull(b, false)
+			s.onlyBug = s.bugIds[0]
+			s.edit(a, 2)
+			s.edit(b, 2)
+			s.onlyBug = ""
+			for k := 0; k < r.rangeInt(1, 3); k++ {
+				s.newBug(b)
+			}
+			s.push(a)
+			s.pull(b, false)
+			check(b, "directed concurrent edit, other bugs, pull")
+		}
 		for st := 0; st < r.rangeInt(5, 20); st++ {
 			rp := pickOne(r, s.reps)
 			before := clockTime(rp.repo, "bugs-edit")
